@@ -5,9 +5,11 @@
 (* connection/conn.go).  Serves C17.                                       *)
 (*                                                                         *)
 (* Topology: the superior S (LocalSuperior) with its collector pool;       *)
-(* relays (a PersistentRemoteSuperior dialled into the pool: at S it is a  *)
-(* RemoteCollector, towards its own collectors it is a superior); leaf     *)
-(* collectors, each with a fixed home: S or a relay.                       *)
+(* relays (a PersistentRemoteSuperior dialled into a pool: at the node it  *)
+(* dialled it is a RemoteCollector, towards its own collectors it is a     *)
+(* superior, and - as cmd fractal wires it - it runs a pool of its own     *)
+(* that further relays may dial: RHome gives the tree); leaf collectors,   *)
+(* each with a fixed home: S or a relay.                                   *)
 (*                                                                         *)
 (*   lsubs        leaves subscribed at S                                   *)
 (*   conn[r]      relay r is connected (= subscribed at S)                 *)
